@@ -1,4 +1,67 @@
+/-
+C20 — property theorems (statements fixed by the architect; do not weaken).  PARTIAL: the cache PROTOCOL
+is decided here; float equality of the scores is checked differentially by the harness.
+Helper lemmas: PeroVerif/Lemmas/KVCache.lean.
+-/
 import PeroVerif.Model.KVCache
+import PeroVerif.Lemmas.KVCache
+
 namespace C20
-theorem placeholder : (1:Nat) = 1 := rfl
+open KV
+
+/-- Within one batch started at step 1, whatever state the layer was left in by earlier batches (stale
+caches of any batch size, garbage, nothing), every step `t` reads only slots written in THIS batch at steps
+`1..t`, and the cross-attention keys/values of THIS batch. -/
+theorem batch_reads_fresh (maxLen n B S steps : Nat) (ly : Layer) (hlen : steps ≤ maxLen)
+    (hself : ∀ c, ly.selfCache = some c → c.length = maxLen)
+    (hmem : ∀ b sl, ly.mem = some (b, sl) → sl.length = maxLen) :
+    ∀ tr ∈ (runBatch maxLen n B S steps 1 ly).2, tr.2.fresh n tr.1 S = true :=
+  runBatch_fresh maxLen n B S steps 0 ly (by omega) ⟨⟨hself, hmem⟩, fun h => absurd h (by omega)⟩
+
+/-- For EVERY history of batches decoded with one model instance (equal or different batch sizes and source
+lengths, any numbers of steps below the cache length), every read of every step is fresh: never garbage,
+never a value of a previous batch — hence what the cached step computes from is exactly what recomputation
+from scratch would supply at those positions. -/
+theorem reads_fresh (maxLen : Nat) (hist : List Batch) (hsteps : ∀ b ∈ hist, b.steps ≤ maxLen) :
+    ∀ r ∈ runHistory maxLen 0 hist Layer.init,
+      r.2.2.fresh r.1 r.2.1 ((hist.getD r.1 ⟨0, 0, 0⟩).srcLen) = true := by
+  intro r hr
+  have h := (runHistory_fresh maxLen hist 0 Layer.init hsteps (lenInv_init maxLen) r hr).2
+  simpa using h
+
+/-- every batch of the history contributes exactly its steps, in order -/
+theorem history_steps (maxLen : Nat) (hist : List Batch) :
+    (runHistory maxLen 0 hist Layer.init).map (fun r => (r.1, r.2.1)) =
+      (List.range hist.length).flatMap fun n => (List.range (hist.getD n ⟨0, 0, 0⟩).steps).map fun k => (n, k + 1) := by
+  have h := runHistory_steps maxLen hist 0 Layer.init
+  simpa using h
+
+/-- The reshapes of the attention do not mix lanes: `(S, B, H·D) → view(-1, B·H, D)` addresses the same
+memory cell, and the head-batch index `b·H + h` determines the line `b` and the head `h`. -/
+theorem lanes_do_not_mix (B H D s b h d : Nat) :
+    offSBE B H D s b h d = offView B H D s b h d :=
+  offSBE_eq_offView B H D s b h d
+
+theorem head_batch_index_injective (H b h b' h' : Nat) (hh : h < H) (hh' : h' < H)
+    (heq : b * H + h = b' * H + h') : b = b' ∧ h = h' :=
+  head_batch_inj H b h b' h' hh hh' heq
+
+/-- Decoding always terminates: the loop stops after at most `W / 4 + 2` network evaluations (the fuel is
+never exhausted), for every network `next`. -/
+theorem loop_terminates (next : List (List Nat) → List Nat) (eos W B : Nat) :
+    (transcribeLoop next eos W B).2 ≤ W / 4 + 2 ∧ 1 ≤ (transcribeLoop next eos W B).2 ∧
+    (transcribeLoop next eos W B).1.length ≤ W / 4 + 1 := by
+  unfold transcribeLoop
+  obtain ⟨h1, _, h3, h4⟩ := loop_bounds next eos (W / 4) (W / 4 + 2) [] (List.replicate B true) 0
+  have h3' := h3 (by omega)
+  simp only [List.length_nil] at h4
+  refine ⟨by omega, by omega, by omega⟩
+
+/-- The emitted transcription is free of boundary and ignore symbols and keeps the order of the kept symbols. -/
+theorem output_clean (eos ign : Nat) (line : List Nat) :
+    eos ∉ postprocess eos ign line ∧ ign ∉ postprocess eos ign line ∧
+    (postprocess eos ign line).Sublist line :=
+  ⟨fun h => (postprocess_mem eos ign line eos h).1 rfl, fun h => (postprocess_mem eos ign line ign h).2 rfl,
+    postprocess_sublist eos ign line⟩
+
 end C20
